@@ -815,7 +815,13 @@ class Emitter:
         self.fn_typedef_list = []
         self.gname = {}
         self.used_cnames = set()
-        self.redirect = dict(opts.redirect or [])
+        self.redirect = {}
+        self.redirect_self = {}     # old -> new, only for (recursive) calls from within `old` itself
+        for old, new in (opts.redirect or []):
+            if new.endswith('@self'):
+                self.redirect_self[old] = new[:-5]
+            else:
+                self.redirect[old] = new
         self.size_cache = {}
         self.typeinfo_ids = {}
         self.addr_taken = None
@@ -1632,7 +1638,7 @@ class FuncEmitter:
         params = set(nm for t, nm in f.params)
         body = []
         self.body = body
-        blocks = f.blocks
+        blocks = self.rpo(f.blocks)
         labels = [lab if lab is not None else f.entry_implicit for lab, _ in blocks]
         self.labelset = set(labels)
         # phi map: target label -> list of (res, type, {pred: val})
@@ -1657,6 +1663,44 @@ class FuncEmitter:
         L.extend('  ' + b for b in body)
         L.append('}')
         return '\n'.join(L)
+
+    def rpo(self, blocks):
+        """blocks in reverse post-order of the CFG: only genuine loop back-edges become backward gotos
+        (CBMC treats every backward goto as a loop and does not merge paths across it)"""
+        f = self.f
+        name = lambda lab: lab if lab is not None else f.entry_implicit
+        bymap = {name(lab): (lab, ins) for lab, ins in blocks}
+        def succs(ins):
+            t = ins[-1]
+            out = []
+            if t.op == 'br':
+                out = [t.a[0]]
+            elif t.op == 'condbr':
+                out = [t.a[1], t.a[2]]
+            elif t.op == 'switch':
+                out = [t.a[1]] + [l for _, l in t.a[2]]
+            elif t.op == 'invoke':
+                out = [t.a['normal'], t.a['unwind']]
+            return out
+        entry = name(blocks[0][0])
+        seen = set()
+        post = []
+        stack = [(entry, iter(succs(bymap[entry][1])))]
+        seen.add(entry)
+        while stack:
+            n, it = stack[-1]
+            adv = False
+            for sname in it:
+                if sname not in seen and sname in bymap:
+                    seen.add(sname)
+                    stack.append((sname, iter(succs(bymap[sname][1]))))
+                    adv = True
+                    break
+            if not adv:
+                post.append(n)
+                stack.pop()
+        order = list(reversed(post))
+        return [bymap[n] for n in order]
 
     def dummy_ret(self):
         t = self.f.ret
@@ -1824,6 +1868,8 @@ class FuncEmitter:
             if self.special_call(i, name, args, res):
                 return
             tname = em.redirect.get(name, name)
+            if name in em.redirect_self and self.f.name == name:
+                tname = em.redirect_self[name]
             f = em.m.funcs.get(tname) or em.m.funcs.get(name)
             argv = []
             for k, x in enumerate(args):
@@ -1975,6 +2021,8 @@ class FuncEmitter:
                     except ValueError:
                         pass
             fn = '__v_memmove' if 'memmove' in name else '__v_memcpy'
+            if n.k == 'int':
+                fn += '_c'     # constant length: CBMC's built-in model, no loop to unwind
             if em.opts.footprint:
                 B.append('__fp_store((void*)%s);' % v(0))
             B.append('%s((u8*)%s, (const u8*)%s, (u64)%s);' % (fn, v(0), v(1), v(2)))
@@ -1992,7 +2040,7 @@ class FuncEmitter:
                             return
                     except ValueError:
                         pass
-            B.append('__v_memset((u8*)%s, (u8)%s, (u64)%s);' % (v(0), v(1), v(2)))
+            B.append('__v_memset%s((u8*)%s, (u8)%s, (u64)%s);' % ('_c' if n.k == 'int' else '', v(0), v(1), v(2)))
             return
         mm = re.match(r'llvm\.(u|s)(add|sub|mul)\.with\.overflow\.i(\d+)', name)
         if mm:
